@@ -47,10 +47,16 @@ func (a *SparseFloat64Vector) EQUALS(b *SparseFloat64Vector, epsilon float64) bo
   for it := a.JOINT_ITERATOR_(b); it.Ok(); it.Next() {
     s1, s2 := it.GET()
     if s1.ptr == nil {
-      return false
+      if !ConstFloat64(0.0).Equals(s2, epsilon) {
+        return false
+      }
+      continue
     }
     if s2.ptr == nil {
-      return false
+      if !s1.Equals(ConstFloat64(0.0), epsilon) {
+        return false
+      }
+      continue
     }
     if !s1.EQUALS(s2, epsilon) {
       return false
